@@ -246,12 +246,15 @@ def r19_config_invariance(facts_by_cfg, run_rules):
         if p == "C19":
             continue
         try:
+            from . import dep_rules as DPR_
+            DPR_.SKIP = True
             KR.SKIP = True      # the shape slice never touches a float: its grid evaluation is the same work in both builds, done once by the property's own check
             try:
                 oa, _, _ = run_rules(p, fd)
                 ob, _, _ = run_rules(p, f3)
             finally:
                 KR.SKIP = False
+                DPR_.SKIP = False
         except Exception as e:      # pragma: no cover
             c.unk("rules:%s" % p, "-", "rule evaluation failed: %r" % e)
             continue
